@@ -278,6 +278,66 @@ func pipeline(ctx context.Context, c Case, base, name, path string, tamper, used
 	return
 }
 
+// secondPipeline: two artifacts that name different bytes "artifact.txt", copied one after the other into one file store.
+func secondPipeline(ctx context.Context, c Case, base, name string) (ok1, ok2, fresh, exists2, fetch2 bool) {
+	// one intermediate store per release (an intermediate file store could not hold both either)
+	var inters []oras.Target
+	bodies := [][]byte{[]byte("release one of the named file, the longer of the two\n"), []byte("release two\n")}
+	var descs []ocispec.Descriptor
+	for i, b := range bodies {
+		tag := fmt.Sprintf("v%d", i+1)
+		inter, closeInter, err := newInter(c.Inter, filepath.Join(base, "inter"+tag))
+		if err != nil {
+			return
+		}
+		defer closeInter()
+		inters = append(inters, inter)
+		in := filepath.Join(base, "input"+tag, name)
+		os.MkdirAll(filepath.Dir(in), 0o755)
+		os.WriteFile(in, b, 0o644)
+		src, err := file.New(filepath.Join(base, "srcwd"+tag))
+		if err != nil {
+			return
+		}
+		d, err := src.Add(ctx, name, "", in)
+		if err == nil {
+			var man ocispec.Descriptor
+			man, err = oras.PackManifest(ctx, src, oras.PackManifestVersion1_1, "application/vnd.verif.round", oras.PackManifestOptions{
+				Layers: []ocispec.Descriptor{d}, ManifestAnnotations: map[string]string{ocispec.AnnotationCreated: "2000-01-01T00:00:00Z"}})
+			if err == nil {
+				err = src.Tag(ctx, man, tag)
+			}
+		}
+		if err == nil {
+			_, err = oras.Copy(ctx, src, tag, inter, tag, oras.DefaultCopyOptions)
+		}
+		src.Close()
+		if err != nil {
+			return
+		}
+		descs = append(descs, d)
+	}
+	dstDir := filepath.Join(base, "dstwd")
+	dst, err := file.New(dstDir)
+	if err != nil {
+		return
+	}
+	defer dst.Close()
+	dst.PreservePermissions, dst.ForceCAS = c.Opts.Preserve, c.Opts.ForceCAS
+	_, err = oras.Copy(ctx, inters[0], "v1", dst, "v1", oras.DefaultCopyOptions)
+	ok1 = err == nil
+	_, err = oras.Copy(ctx, inters[1], "v2", dst, "v2", oras.DefaultCopyOptions)
+	ok2 = err == nil
+	if b, rerr := os.ReadFile(filepath.Join(dstDir, name)); rerr == nil {
+		fresh = bytes.Equal(b, bodies[1])
+	}
+	exists2, _ = dst.Exists(ctx, descs[1])
+	if b, ferr := content.FetchAll(ctx, dst, descs[1]); ferr == nil {
+		fetch2 = bytes.Equal(b, bodies[1])
+	}
+	return
+}
+
 func TestDrive(t *testing.T) {
 	out := os.Getenv("VH_OUT")
 	if out == "" {
@@ -304,9 +364,10 @@ func TestDrive(t *testing.T) {
 	}
 	for ci, c := range cases {
 		isDir, objs := shape(c.Shape)
-		name := "artifact"
+		// (names whose first element begins with two dots are ordinary names: "..artifact" is not "../artifact")
+		name := []string{"artifact", "..artifact", "artifact", "...art"}[ci%4]
 		if !isDir {
-			name = "artifact.txt"
+			name += ".txt"
 		}
 		run := func(sub string, mtime time.Time, tamper bool, used ...bool) (ocispec.Descriptor, bool, string, error) {
 			base := filepath.Join(root, fmt.Sprintf("c%d-%s", ci, sub))
@@ -375,6 +436,12 @@ func TestDrive(t *testing.T) {
 			_, _, _, terr := run("t", time.Unix(1000000000, 0), true)
 			emit(map[string]any{"e": "round", "kind": "tamper", "case": ci, "c": c, "ok": terr == nil, "msg": errStr(terr)})
 			os.RemoveAll(filepath.Join(root, fmt.Sprintf("c%d-t", ci)))
+		}
+		if c.Shape == "file" && !c.Opts.SkipUnpack {
+			base := filepath.Join(root, fmt.Sprintf("c%d-s", ci))
+			ok1, ok2, fresh, exists2, fetch2 := secondPipeline(ctx, c, base, name)
+			emit(map[string]any{"e": "round", "kind": "second", "case": ci, "c": c, "ok": ok1, "ok2": ok2, "fresh": fresh, "exists2": exists2, "fetch2": fetch2})
+			os.RemoveAll(base)
 		}
 		if c.Shape == "file" {
 			// two blobs with the same bytes under different names
